@@ -94,7 +94,14 @@ let run_case toks obs =
                     | _ -> "?")
                | _ -> "?") in
             (* and what the handler on the other side would see: feed the frame to the model decoder *)
+            (* the caller's own context shows the same tags after the operation as before it *)
+            let mutated = List.filter_map (fun e -> match String.split_on_char '/' e with
+              | "ctxtags" :: cid :: b :: a :: _ when b <> a -> Some (cid, b, a)
+              | _ -> None) evs in
             if got <> want_s then
               Printf.sprintf "PROPFAIL %s sig=tags-not-delivered:%s the frame carries tags %s, the caller's context and tag function give %s" id (kv "tkind" k) got want_s
-            else C01.timeouts_or_agree id k evs)
+            else (match mutated with
+              | (cid, b, a) :: _ ->
+                  Printf.sprintf "PROPFAIL %s sig=caller-context-mutated:%s the caller's own context showed tags %s before operation %s and %s after it" id (kv "tkind" k) b cid a
+              | [] -> C01.timeouts_or_agree id k evs))
   | _ -> "SKIP"
